@@ -33,6 +33,7 @@ CONSTANTS
   SearchLocked, \* options['search_size_locked']
   GridMult, GridNum,  \* search_grid_multiplier, search_grid_number
   MeshExpand, MeshIncr, \* search_mesh_expand, search_mesh_increment
+  Sloppy,       \* options['sloppy_improvement'] (default TRUE): any positive improvement moves the incumbent
   NVals,        \* number of abstract objective ranks
   Faults        \* BOOLEAN: target may fail at any call
 
@@ -192,7 +193,9 @@ SearchCandidate ==
 \* merged and w is the precision-weighted mean (any value)
 SearchEval_(v, outcome, merged, w) ==
   /\ phase = "searcheval"
-  /\ (~noisy => (outcome = "failure") = (v >= inc))
+  /\ (~noisy => IF Sloppy THEN (outcome = "failure") = (v >= inc)
+                 ELSE outcome = "success" => v < inc)
+  /\ (~Sloppy => outcome # "incremental")   \* only sufficient improvements move the incumbent
   /\ (merged => noisy)     \* repeated point merged under specified noise
   /\ (~merged => w = v)
   /\ Called(v, ~merged)
@@ -257,7 +260,8 @@ PollEnd_(stalled) ==
   /\ LET kNew == MeshAfterPoll(k, pgood, AccelMesh, AccelSteps, iter, stalled, KCap)
      IN /\ k' = kNew
         /\ ks' = SearchSizeAfterPoll(ks, kNew, pgood, GridMult, GridNum)
-  /\ inc' = pbest               \* sloppy improvement: move iff improved
+  \* sloppy improvement: move iff improved; otherwise only after a sufficient improvement
+  /\ inc' = IF Sloppy \/ pgood THEN pbest ELSE inc
   /\ phase' = "loopend"
   /\ UNCHANGED <<vCount, vMode, vCtr, vFlag, vPoll, vHist, vTerm, vFinal>>
 PollEnd == \E stalled \in BOOLEAN : PollEnd_(stalled)
@@ -354,7 +358,7 @@ Terminates         == <>Terminal
 
 \* C04 -- deterministic: the incumbent is the best value ever observed
 IncumbentIsMin ==
-  ~noisy =>
+  (~noisy /\ Sloppy) =>
      /\ (phase \in {"loopbegin", "search", "decide", "pollbegin", "loopend",
                     "final", "result", "done"} => inc = minSeen)
      /\ (phase = "polleval" => pbest = minSeen)
